@@ -238,9 +238,6 @@ class CompositeFrontend(ConstrainedFrontend):
                 for ns in new_solvers:
                     self._owned_solvers.add(ns)
                     self._store_child(ns)
-                # the parts replace the old children: a variable none of the parts constrains must not keep one alive
-                for v in [v for v, c in self._solvers.items() if any(c is o for o in old_solvers)]:
-                    del self._solvers[v]
 
     def _store_child(self, ns, extra_names=frozenset(), invalidate_cache=True):
         for v in ns.variables | extra_names:
